@@ -47,6 +47,9 @@ CLAIMS = {
          "Per-call heap discipline proved for every allocation site on every explored path, for histories of <= 4 API calls per query (not 300).", "allocation never fails; per-call inductive reading", "5/C16"),
  "C17": ("CBMC with --memory-leak-check: instance op table replaced through the exported lookup by ops that fail on a symbolic flag; second call with real ops must behave normally",
          "Solver verdict over data and the failure flag per (operation, back end).", "two calls per query", "5/C17"),
+ "C18": ("CBMC on a sequentialised two-thread model: guarded yield hooks in /repo (LIBERASURECODE_VERIF_YIELD) call a scheduler that runs thread B's complete operation when thread A reaches an enumerated instrumented point; lock model blocks infeasible schedules; data symbolic",
+         "Context-bounded bounded model checking: 6 scenarios x every instrumented pre-emption point (1st/2nd occurrence) with one context switch; memory-safety failures (use of a freed instance, use of incomplete GF tables), descriptor uniqueness and sequential-result equality are decided by the solver for every data value. Two genuine races are listed as known findings; all other schedules in the bound are discharged.",
+         "under-approximation of schedules (2 threads, one pre-emption at 13 instrumented points); CBMC's own pthread support rejects this code; hooks are no-ops without the guard", "5/C18 + 10.2"),
  "C19": ("CBMC: isa_l_common.c adapters linked with clean-room GF(2^8) primitives: back-end ops on symbolic payloads with exhaustive erasure sets for small shapes, singular survivor sets and injected inversion failure, public API on the smallest shapes",
          "Solver verdict over all payloads per (adapter, shape, erasure set); split oracle for k>2.", "model/gf8.c stands for any conforming ISA-L", "5/C19"),
  "C20": ("CBMC: liberasurecode_decode(force_metadata_checks=1) on fragments with symbolic payload damage (uninterpreted CRCs, mismatch assumed) or re-sealed header edits, for enumerated survivor sets and damaged subsets",
@@ -75,7 +78,7 @@ def main():
         "version": 1,
         "setup_cmd": "python3 tools/setup_check.py",
         "hooks": {"guard": "LIBERASURECODE_VERIF", "enable": "checks compile /repo sources with goto-cc/gcc -DLIBERASURECODE_VERIF",
-                  "baseline_off_cmd": "make -C /repo test", "source_commits": [], "add_only": True},
+                  "baseline_off_cmd": "make -C /repo test", "source_commits": ["80b0763"], "add_only": True},
         "engines": [{"name": "cbmc", "path": "/usr/local/bin/cbmc", "serves_properties": sorted(CLAIMS),
                      "kind_free_text": "CBMC 6.11.0 bounded symbolic execution of the real C sources (goto-cc build per run) + native gcc/ASan/UBSan replay of counter-examples"}],
         "checks": checks,
